@@ -10,6 +10,13 @@
 #include <sstream>
 #include <string>
 #include <vector>
+#ifdef VERIF_COVERAGE_BUILD
+// tools/coverage.py builds: children that leave through _exit() would lose their gcov counters
+#include <unistd.h>
+extern "C" void __gcov_dump(void);
+static inline void vp_cov_exit(int c) { __gcov_dump(); ::_exit(c); }
+#define _exit(c) vp_cov_exit(c)
+#endif
 
 namespace vp {
 
